@@ -78,6 +78,16 @@ def f_fastMix : Family :=
     divFree := true,
     specT := fun _ j => .branch (.le fmLen zero) (.leaf (if j = 0 then one else zero)) (.leaf (.mul (fmU j) (.div one fmLen))) }
 
-def families : List Family := [f_slerp, f_slerpk, f_qmix, f_qlerp, f_shortMix, f_fastMix]
+/-- dual-quaternion `lerp(x, y, a) = x (1 − a) + y k`, `k = −a` if the real parts are in opposite hemispheres (`dot < 0`), else `a`:
+    the blend towards `±y`, so `a = 0` gives `x` and `a = 1` gives `±y` -/
+def dqA : E := v 16
+def dqDot : E := sumE ((List.range 4).map fun i => .mul (v i) (v (8 + i)))
+def f_dqlerp : Family :=
+  { name := "dqlerp", kind := .poly, treeMode := true, treeWalk := true, keys := [[]], nOut := fun _ => 8, spec := fun _ _ => zero,
+    specT := fun _ j => .branch (.lt dqDot zero)
+      (.leaf (.sub (.mul (v j) (.sub one dqA)) (.mul (v (8 + j)) dqA)))
+      (.leaf (.add (.mul (v j) (.sub one dqA)) (.mul (v (8 + j)) dqA))) }
+
+def families : List Family := [f_slerp, f_slerpk, f_qmix, f_qlerp, f_shortMix, f_fastMix, f_dqlerp]
 
 end Glm.Spec.C13
